@@ -100,4 +100,19 @@ CHECKS = {
         "stub": ["libp2p host/swarm (simhost consults the gater's Intercept* methods in the swarm's order)", "clock and scheduling (kernel)"],
         "assumptions": ["simhost reports the remote multiaddr without /p2p part, as libp2p connections do", "reference ban model DESIGN A.7"],
     },
+    "C20": {
+        "profile": "chainrace", "pkg": "c20", "test": "TestC20", "level": "exploration", "race": True, "gomaxprocs": 4,
+        "env": {"GORACE_TEMPLATE": "halt_on_error=0 suppress_equal_stacks=0 suppress_equal_addresses=0 log_path={out}/race"},
+        "quick": {"workers": 8, "checks": 250}, "thorough": {"workers": 14, "checks": 12000},
+        "timeout": {"quick": "20m", "thorough": "6h"},
+        "rule": "schedsim under the Go race detector: per run one of four scenarios - (0,1) one writer task adding/removing blocks through Chain.AddBlock/RemoveBlock (block cache of 2-6 blocks, 2-5 stable blocks below) with 1-4 reader tasks "
+                "calling LastBlock, GetBlockHeaders, GetBlockHeadersByHeights, GetTransactions, GetBlocksBetweenHeight and the getHighestCommonBlock/getBlocksFromId RPC handlers; (2) three tasks on the certificate pool (Add/Select+Upgrade/Cleanup/Get/Has/Size); "
+                "(3) event emitter with 1-3 well-behaved subscribers, 1-4 publishers, Unsubscribe and Close, plus two tasks on one staged store through two prefix views. The kernel's hand-offs are invisible to the detector, so a report means the program did not order the accesses. "
+                "Oracles: race reports (keyed by the two innermost repository frames), stuck tasks with the lock-wait graph, panics, bulk lookups returning every stable item exactly once, porcupine linearizability of LastBlock against the writer's tip. distinct = distinct (schedule hash, scenario)",
+        "real": ["pkg/blockchain (block_cache.go, data_access.go, chain.go)", "pkg/consensus/certificate/pool.go", "pkg/event/event.go", "pkg/db/diffdb/db.go", "pkg/consensus/sync/sync.go (RPC handlers)", "pebble (in-memory)"],
+        "stub": ["scheduler, sync primitives, errgroup (kernel tasks)", "p2p connection (nil: handlers only receive well-formed requests)"],
+        "distinct_measure": "FNV-64 over the (scheduled task, park kind) decision sequence combined with the scenario",
+        "assumptions": ["Go race detector as the happens-before oracle (GORACE suppress_equal_stacks=0 so that a replay in the same process reports again)", "block_sync.go's peer loop is not run here (it needs a p2p connection); its shared append is covered by the chainsim sync runs only functionally",
+                        "subscribers are well-behaved (keep receiving until their channel is closed)"],
+    },
 }
